@@ -35,6 +35,8 @@ type Config struct {
 	Only            string
 	NoReplay        bool
 	Seed            int
+	Progress        bool
+	Deadline        time.Time
 }
 
 type Obligation struct {
@@ -52,6 +54,7 @@ type Obligation struct {
 	Claim      string                    `json:"claim"`
 	Bounds     string                    `json:"bounds"`
 	TimeoutS   int                       `json:"timeout_s"`
+	Lemmas     bool                      `json:"lemmas"`
 
 	pkgPath string
 	fn      *ssa.Function
@@ -318,7 +321,13 @@ func runObligations(l *Loaded, cfg *Config, obs []*Obligation) map[string]*ObRes
 					mu.Unlock()
 					cond.Signal()
 				}
+				if cfg.Progress {
+					fmt.Fprintf(os.Stderr, "[start] %s preset=%v\n", it.ob.Name, it.preset)
+				}
 				r := runItem(l, cfg, it, spawn)
+				if cfg.Progress {
+					fmt.Fprintf(os.Stderr, "[done ] %s preset=%v paths=%d queries=%d solver=%.1fs wall=%.1fs spawned=%d aborted=%q\n", it.ob.Name, it.preset, r.Paths, r.Solver.Queries, r.Solver.Seconds, r.Seconds, r.Spawned, r.Aborted)
+				}
 				results[it.ob.Name].absorb(r)
 				mu.Lock()
 				pending--
@@ -624,6 +633,8 @@ func cmdCheck(args []string) int {
 	fs.StringVar(&cfg.Only, "only", "", "run only obligations whose name contains this")
 	fs.BoolVar(&cfg.NoReplay, "noreplay", false, "skip native replay")
 	fs.IntVar(&cfg.MaxPaths, "maxpaths", 400000, "path budget per work item")
+	fs.BoolVar(&cfg.Progress, "progress", false, "print work item progress to stderr")
+	budgetMin := fs.Int("budget", 0, "wall-clock budget in minutes (default: quick 12, thorough 90)")
 	var pos []string
 	for len(args) > 0 && !strings.HasPrefix(args[0], "-") {
 		pos = append(pos, args[0])
@@ -650,6 +661,13 @@ func cmdCheck(args []string) int {
 		cfg.CrossCheckEvery = 4
 	}
 	t0 := time.Now()
+	if *budgetMin == 0 {
+		*budgetMin = 12
+		if tier == "thorough" {
+			*budgetMin = 90
+		}
+	}
+	cfg.Deadline = t0.Add(time.Duration(*budgetMin) * time.Minute)
 	specData, err := os.ReadFile(filepath.Join(verifDir, "specs", prop+".json"))
 	if err != nil {
 		fmt.Println("no spec:", err)
